@@ -590,6 +590,56 @@ NUMBER_REPS = [("python int", 3), ("python int 0", 0),
                ("sympy irrational expression", _Symbolic())]
 
 
+def tower_unaware_tests(fn):
+    """Number tests in `fn` that miss part of the numeric tower:
+    * `type(v) in (int, sympy.Integer, sympy.Rational)` / `type(v) is
+      sympy.Rational` - exact-class tests never match Zero, One, NegativeOne,
+      Half (and an exact test against Rational misses every Integer) unless
+      the same condition also asks is_sympy / isinstance;
+    * `isinstance(p, int)` on a value parameter - a number written in the
+      program is a sympy Integer, not a python int.
+    Returns [(node, text)]."""
+    from ..flow import copy_env, subst
+    env = copy_env(fn)
+    params = {a.arg for a in fn.args.args if a.arg not in ("ctx", "self")}
+    out = []
+
+    def companions(node):
+        """the boolean expression the test sits in mentions a subclass-aware
+        test of the same thing"""
+        cur = node
+        par = getattr(cur, "_parent", None)
+        while isinstance(par, (ast.BoolOp, ast.UnaryOp)):
+            cur = par
+            par = getattr(cur, "_parent", None)
+        txt = ast.unparse(cur)
+        return "is_sympy(" in txt or "vy_type(" in txt or (
+            "isinstance(" in txt and "sympy." in txt)
+
+    for n in ast.walk(fn):
+        if isinstance(n, ast.Compare) and len(n.ops) == 1 and isinstance(
+                n.left, ast.Call) and dotted(n.left.func) == "type" \
+                and isinstance(n.ops[0], (ast.In, ast.Is, ast.Eq, ast.NotIn,
+                                          ast.IsNot, ast.NotEq)):
+            rhs = subst(n.comparators[0], env)
+            names = {dotted(m) for m in ast.walk(rhs)
+                     if isinstance(m, (ast.Attribute, ast.Name))}
+            if any(x and x.startswith("sympy.") for x in names) \
+                    and not companions(n):
+                out.append((n, ast.unparse(n)[:60]))
+        if isinstance(n, ast.Call) and dotted(n.func) == "isinstance" \
+                and len(n.args) == 2 and isinstance(n.args[0], ast.Name) \
+                and n.args[0].id in params:
+            kinds = subst(n.args[1], env)
+            ks = {dotted(m) for m in ast.walk(kinds)
+                  if isinstance(m, (ast.Attribute, ast.Name))}
+            if "int" in ks and not any(
+                    x and x.startswith("sympy.") for x in ks) \
+                    and "str" not in ks and not companions(n):
+                out.append((n, ast.unparse(n)[:60]))
+    return out
+
+
 def scalar_classification(chk, repo):
     """vectorise pairs a scalar with every item only if the scalar is
     *recognised* as one.  primitive_type and vy_type depend on nothing but the
